@@ -73,7 +73,7 @@ package mem
 //@ func (s *store) set(path string, src keyvalue.FileRecord, contents blob.Blob) (err error)
 //@   props C18 C14
 //@   requires storeInv(s) && keyvalue.srcOK(src)
-//@   dispatch keyvalue.FileRecord *keyvalue.fileData fileRecord
+//@   dispatch keyvalue.FileRecord *keyvalue.fileData fileRecord *keyvalue.BaseFileRecord
 //@   ensures "inv" storeInv(s)
 //@   modifies mapOf(s.records), srcCache(src).data, srcCache(src).dataErr, srcCache(src).dataDone, oncedone(srcCache(src).dataOnce),
 //@            srcCache(src).mode, oncedone(srcCache(src).modeOnce), srcCache(src).modTime, oncedone(srcCache(src).modTimeOnce)
